@@ -52,8 +52,11 @@ func getEnv(rm, mode int) *env {
 		Products: []e2e.Product{{Name: "p", Hosts: []string{"example.org"}, Cluster: "c"},
 			{Name: "p2", Hosts: []string{"dead.example.org"}, Cluster: "c2"}},
 		DefaultProduct: "p", // a TLS stream connection has no Host: routed through the default product
-		Clusters: []e2e.Cluster{{Name: "c", RetryMax: rm, CrossRetry: 0, RetryLevel: 1, BalanceMode: bm,
-			SubClusters: []e2e.SubCluster{{Name: "s1", Weight: 100, Backends: []*e2e.Backend{b0, b1, d}}}},
+		// CrossRetry 2 with an empty second sub-cluster: once the in-cluster budget is used up bal.Balance returns
+		// ErrBkCrossRetryBalance twice (clusterInvoke: RetryTime++, continue, Trans.Backend kept) before ErrBkRetryTooMany;
+		// no additional attempt can happen, the counts must not move
+		Clusters: []e2e.Cluster{{Name: "c", RetryMax: rm, CrossRetry: 2, RetryLevel: 1, BalanceMode: bm,
+			SubClusters: []e2e.SubCluster{{Name: "s1", Weight: 100, Backends: []*e2e.Backend{b0, b1, d}}, {Name: "s2", Weight: 0}}},
 			{Name: "c2", RetryMax: 0, SubClusters: []e2e.SubCluster{{Name: "s1", Weight: 100, Backends: []*e2e.Backend{d2}}}}},
 		Handlers: 1, HTTPS: true,
 		Tweak: func(cfg *bfe_conf.BfeConfig, root string) { // offer the "stream" protocol on the TLS listener
@@ -204,11 +207,18 @@ func impl(in hv.Val) hv.Val {
 		id := fmt.Sprintf("r%d", rid)
 		switch hv.AsInt(op[0]) {
 		case 1:
-			if len(op) != 4 {
+			if len(op) != 4 && len(op) != 6 {
 				return hv.Err(0)
 			}
 			if r := reqs[rid]; r != nil && r.held {
 				return hv.Err(1)
+			}
+			rr, rf := 1, 1
+			if len(op) == 6 {
+				rr, rf = int(hv.AsInt(op[4])), int(hv.AsInt(op[5]))
+				if rr < 0 || rr > 5 || rf < 0 || rf > 5 {
+					return hv.Err(0)
+				}
 			}
 			// a rid may be reused after completion: ids are per start
 			id = fmt.Sprintf("r%d.%d", rid, len(obs))
@@ -237,6 +247,9 @@ func impl(in hv.Val) hv.Val {
 			}
 			// per-attempt forward verdicts: handler 0 of HandleForward answers the k-th call of this request with vs[k]
 			e.srv.Mod.SetAttemptScript(id, bfe_module.HandleForward, vs)
+			// verdicts of the callback points that run after a backend was chosen and used
+			e.srv.Mod.SetAttemptScript(id, bfe_module.HandleReadResponse, []e2e.Verdict{{Ret: rr}})
+			e.srv.Mod.SetAttemptScript(id, bfe_module.HandleRequestFinish, []e2e.Verdict{{Ret: rf}})
 			reqs[rid] = rs
 			rs.held = false
 			idc := id
@@ -381,7 +394,7 @@ func gen(r *hv.Rng, i int, tier string) (string, hv.Val) {
 	class := "seq"
 	nops := 1 + r.Intn(6)
 	conc := 0
-	ff, tun := false, false
+	ff, tun, fin := false, false, false
 	for k := 0; k < nops; k++ {
 		// choose: start a request on a free rid, or release a held one
 		var heldIds, free []int
@@ -415,7 +428,21 @@ func gen(r *hv.Rng, i int, tier string) (string, hv.Val) {
 				ff = true
 			}
 		}
-		ops = append(ops, hv.L{hv.I(1), hv.I(rid), fwd, steps})
+		if r.Chance(1, 2) {
+			rr, rf := 1, 1
+			if r.Bool() {
+				rr = r.Intn(6)
+			}
+			if r.Bool() {
+				rf = r.Intn(6)
+			}
+			ops = append(ops, hv.L{hv.I(1), hv.I(rid), fwd, steps, hv.I(rr), hv.I(rf)})
+			if rr == 0 || rf == 0 {
+				fin = true
+			}
+		} else {
+			ops = append(ops, hv.L{hv.I(1), hv.I(rid), fwd, steps})
+		}
 		// whether it really ends up held depends on the balancer's choices; releasing a request that is not held is a no-op
 		if holds {
 			held[rid] = true
@@ -435,6 +462,9 @@ func gen(r *hv.Rng, i int, tier string) (string, hv.Val) {
 	}
 	if tun {
 		class += "-tunnel"
+	}
+	if fin {
+		class += "-finishverdict"
 	}
 	if i == 0 {
 		return "triv-one-ok", hv.L{hv.I(2), hv.I(0), hv.L{hv.L{hv.I(1), hv.I(0), hv.L{}, hv.L{hv.I(0)}}}}
